@@ -16,7 +16,9 @@ Rets == {"none",          \* no return type
          "std_result",    \* -> std::result::Result<u32, CorpErr>
          "path_result",   \* -> crate::support::Result<u32>      (any path whose last segment is `Result`)
          "alias",         \* -> Outcome   where  type Outcome = Result<u32, CorpErr>   (not recognisable syntactically)
-         "option"}        \* -> Option<u32>
+         "option",        \* -> Option<u32>
+         "opt_result",    \* -> Option<Result<u32, CorpErr>>      (a Result nested in something else is not a Result)
+         "tuple_result"}  \* -> (Result<u32, CorpErr>, u32)
 \* attribute spelling
 Attrs == {"plain",        \* #[handler]
           "result",       \* #[handler(result)]
@@ -24,9 +26,9 @@ Attrs == {"plain",        \* #[handler]
           "both",         \* #[handler(result, no_log)]   -> compile error
           "unknown"}      \* #[handler(bogus)]            -> compile error
 \* shape of the actor type carrying #[derive(Actor)]
-Shapes == {"struct", "tuple", "unit", "enum", "generic"}
+Shapes == {"struct", "tuple", "unit", "enum", "generic", "generic_where"}
 \* message type: a plain struct or an instance of a generic struct
-MsgGens == {"plain", "generic"}
+MsgGens == {"plain", "generic", "path", "mutbind"}   \* M / M<u8> / self::M / `mut msg: M`
 \* a second, non-handler method in the same impl block (must be left alone)
 Extras == {FALSE, TRUE}
 
@@ -66,6 +68,8 @@ Expect(r) ==
 QuickRows == {r \in Rows : \/ (r.shape = "struct" /\ r.msg = "plain" /\ ~r.extra /\ r.prev = "none")
                             \/ (r.ret = "result" /\ r.attr = "plain" /\ r.prev = "none")
                             \/ (r.ret = "alias" /\ r.attr = "result" /\ r.msg = "generic" /\ r.prev = "none")
+                            \/ (r.attr = "plain" /\ r.ret \in {"result", "u32"} /\ ~r.extra /\ r.prev = "none"
+                                  /\ (r.shape = "generic_where" \/ r.msg \in {"path", "mutbind"}))
                             \/ (r.shape = "struct" /\ r.msg = "plain" /\ ~r.extra /\ r.prev # "none"
                                   /\ r.ret \in {"result", "alias", "u32"} /\ r.attr \in {"plain", "result", "no_log"})}
 
